@@ -208,6 +208,55 @@ mod positional {
     }
 }
 
+/// A map format that hands the entries to the visitor one by one and does NOT verify afterwards
+/// that the visitor consumed them all (streaming formats cannot): whether a trailing duplicate or
+/// unknown entry is rejected is then entirely up to the visitor.  (serde's MapDeserializer and
+/// serde_json both check for left-over input themselves and so hide a visitor that stops early.)
+mod lenient_map {
+    use super::positional::Error;
+    use serde::de::{self, value::StrDeserializer, DeserializeSeed, IntoDeserializer, MapAccess, Visitor};
+    pub struct De {
+        pub entries: Vec<(&'static str, f64)>,
+        pub pos: usize,
+        pub pulled: usize,
+    }
+    impl<'de, 'a> MapAccess<'de> for &'a mut De {
+        type Error = Error;
+        fn next_key_seed<K: DeserializeSeed<'de>>(&mut self, seed: K) -> Result<Option<K::Value>, Error> {
+            match self.entries.get(self.pos) {
+                None => Ok(None),
+                Some((k, _)) => {
+                    self.pulled += 1;
+                    let d: StrDeserializer<Error> = (*k).into_deserializer();
+                    seed.deserialize(d).map(Some)
+                }
+            }
+        }
+        fn next_value_seed<V: DeserializeSeed<'de>>(&mut self, seed: V) -> Result<V::Value, Error> {
+            let v = self.entries[self.pos].1;
+            self.pos += 1;
+            let d: de::value::F64Deserializer<Error> = v.into_deserializer();
+            seed.deserialize(d)
+        }
+    }
+    impl<'de, 'a> de::Deserializer<'de> for &'a mut De {
+        type Error = Error;
+        fn deserialize_any<V: Visitor<'de>>(self, v: V) -> Result<V::Value, Error> {
+            v.visit_map(self)
+        }
+        serde::forward_to_deserialize_any! {
+            bool i8 i16 i32 i64 i128 u8 u16 u32 u64 u128 f32 f64 char str string bytes byte_buf option unit unit_struct
+            newtype_struct seq tuple tuple_struct map struct enum identifier ignored_any
+        }
+    }
+}
+
+/// entries through the lenient map format
+fn de_lenient(entries: Vec<(&'static str, f64)>) -> Result<TwoFloat, String> {
+    let mut d = lenient_map::De { entries, pos: 0, pulled: 0 };
+    TwoFloat::deserialize(&mut d).map_err(|e| e.to_string())
+}
+
 fn c20_serde_roundtrip(ctx: &mut Ctx) {
     let x = dd_all(ctx);
     x.key(ctx);
@@ -469,6 +518,22 @@ fn c20_serde_malformed(ctx: &mut Ctx) {
     ctx.note("shape", || name.to_string());
     check!(ctx, r.is_err(), "malformed input ({name}) for {} was accepted as {:?}", x.show(), r.as_ref().ok().map(|t| Dd::of(*t).show()));
     ctx.set_nontrivial(true);
+    // the same kinds of entries after BOTH fields have been seen, through a format that does not
+    // itself complain about entries the visitor leaves unread
+    {
+        let tail: (&'static str, f64) = [("hi", h2), ("lo", l2), ("mid", h2), ("x", l2)][(which % 4) as usize];
+        let first = if which & 4 == 0 { vec![("hi", x.hi), ("lo", x.lo), tail] } else { vec![("lo", x.lo), ("hi", x.hi), tail] };
+        match guard(|| de_lenient(first.clone())) {
+            Err(m) => ctx.fail(format!("deserialising the map {:?} panicked: {m}", first)),
+            Ok(r) => check!(ctx, r.is_err(), "the map {:?} (a duplicate or unknown entry after both fields; format without a left-over check) was accepted as {:?}", first, r.as_ref().ok().map(|t| Dd::of(*t).show())),
+        }
+        // the lenient format must still accept the well-formed map
+        let good = vec![("hi", x.hi), ("lo", x.lo)];
+        if x.valid() {
+            let r = guard(|| de_lenient(good)).ok().and_then(|r| r.ok()).map(Dd::of);
+            check!(ctx, r.map(|d| same_dd(d, x)) == Some(true), "the map hi, lo of {} through the lenient format gave {:?}", x.show(), r.map(|d| d.show()));
+        }
+    }
     other_key_types(ctx, x, h2);
 }
 
